@@ -9,6 +9,7 @@ import (
 	"time"
 
 	"github.com/daeuniverse/dae/common/consts"
+	"github.com/sirupsen/logrus"
 	vs "github.com/daeuniverse/dae/zz_vs"
 )
 
@@ -278,4 +279,77 @@ func Verif_C16_snapshot() {
 		wantLen = 1
 	}
 	vs.Assert("the new generation's group sees the inherited state", set.Len() == wantLen && bit == want[k0])
+}
+
+// Verif_C16_escalation: a proxy node (it has a server address) through a history of probe results on
+// three of its health domains, the shared per-address tracker being the real one: a domain dies by
+// its own threshold; every death that is not forced counts towards the address, any successful probe
+// clears that count, and only the third death without a success in between takes all six domains
+// down at once. After every event all six domains are compared with the model.
+func Verif_C16_escalation() {
+	resetGlobalProxyState()
+	notifyQuicDcidCacheClearImpl.Store(defaultNotifyQuicDcidCacheClearImpl) // what the package initialiser does
+	start := time.Now()
+	d := c16NewDialer()
+	d.ctx, d.cancel = context.WithCancel(context.Background())
+	d.property.Address = "198.51.100.7:443"
+	d.property.Name = "n"
+	lg := logrus.New()
+	lg.SetLevel(logrus.PanicLevel)
+	d.GlobalOption.Log = lg
+	keys := StandardHealthKeys()
+	all := make([]*NetworkType, len(keys))
+	for i, k := range keys {
+		all[i] = k.NetworkType()
+	}
+	// the three domains events happen on: two TCP ones (one failed probe kills) and one UDP-DNS one,
+	// which already has two failed probes behind it (so that the next one kills)
+	act := []*NetworkType{
+		{L4Proto: consts.L4ProtoStr_TCP, IpVersion: consts.IpVersionStr_4},
+		{L4Proto: consts.L4ProtoStr_TCP, IpVersion: consts.IpVersionStr_6},
+		{L4Proto: consts.L4ProtoStr_UDP, IpVersion: consts.IpVersionStr_4, UdpHealthDomain: UdpHealthDomainDns, IsDns: true},
+	}
+	alive := map[int]bool{}
+	for _, t := range all {
+		alive[t.Index()] = true
+	}
+	fails := map[int]int{act[2].Index(): 2}
+	d.failCount[act[2].Index()] = 2
+	thr := map[int]int{act[0].Index(): 1, act[1].Index(): 1, act[2].Index(): 3}
+	deaths := 0
+	events := 4
+	if vs.Thorough() {
+		events = 6
+	}
+	for e := 0; e < events; e++ {
+		tag := "ev" + strconv.Itoa(e)
+		t := act[vs.Choice(tag+".domain", 3)]
+		i := t.Index()
+		if vs.Bool(tag + ".success") {
+			upd, _ := d.markAvailable(t, 20*time.Millisecond)
+			d.informDialerGroupUpdate(upd)
+			alive[i], fails[i] = true, 0
+			deaths = 0
+		} else {
+			d.informDialerGroupUpdate(d.markUnavailable(t))
+			fails[i]++
+			if alive[i] && fails[i] >= thr[i] {
+				alive[i] = false
+				deaths++
+				if deaths >= 3 {
+					for _, x := range all {
+						alive[x.Index()] = false
+					}
+					deaths = 0
+				}
+			}
+		}
+		// the history is a burst: the tracker's ageing of old failures is not the subject here
+		vs.Assume(time.Now().Sub(start) < time.Second)
+		ok := true
+		for _, x := range all {
+			ok = ok && d.MustGetAlive(x) == alive[x.Index()]
+		}
+		vs.Assert("every health domain is alive exactly as thresholds and the three-deaths escalation prescribe", ok)
+	}
 }
